@@ -17,7 +17,7 @@ PID, SEL = "C05", 5
 ASSUMPTIONS = [
     "class grammar: K1 leaf (optionally keyed / frozen), K2 node with int/str/Optional attributes, nested spec attribute, List/Dict/Set of scalars, List/Dict of (keyed) spec classes, defaults none / immutable / mutable / default_factory / Attr / dataclasses.field, attribute and item preparers, invalidated_by (one dependant, also '*'), do_not_copy attributes, K3 spec subclass with re-defaulted attribute, lazy and eager bootstrap; KeyedList/KeyedSet attributes, do_not_copy=True classes, init=False attributes and plain subclasses are outside the instance model",
     "values from the conforming pool, transforms from the pool of pure functions (identity, affine on ints, constant, fresh list, appended list, fresh dict); callbacks never raise in this check",
-    "interpretation (DESIGN 4 C05): with_<a>() without a value builds an empty value of the declared type; MISSING/UNCHANGED given per keyword leave that attribute as it is; identity of the result is demanded only for _inplace=True, _if=False, with_<a>(UNCHANGED), update(MISSING|UNCHANGED) without keywords; transform(_transform=f) returns f(self); every value stored in an attribute passes through its preparer once (so transform_<a>(f) stores prepare(f(old))); reset/del restore the declared default as declared (not run through the preparer); transform_<a>/update_<a> on an attribute that holds nothing start from an empty value of the declared type; reset_<a>/del of an attribute that holds nothing and has no default is an AttributeError (standard Python deletion), reset() skips such attributes",
+    "interpretation (DESIGN 4 C05): with_<a>() without a value builds an empty value of the declared type; MISSING/UNCHANGED given per keyword leave that attribute as it is; identity of the result is demanded only for _inplace=True, _if=False, with_<a>(UNCHANGED), update(MISSING|UNCHANGED) without keywords; transform(_transform=f) returns f(self); every value stored in an attribute passes through its preparer once (so transform_<a>(f) stores prepare(f(old))); reset/del restore what a new instance would hold (the declared default run through the preparers, /repo 8d0a965); transform_<a>/update_<a> on an attribute that holds nothing start from an empty value of the declared type; reset_<a>/del of an attribute that holds nothing and has no default is an AttributeError (standard Python deletion), reset() skips such attributes",
     "frozen receivers: an in-place call must fail (FrozenInstanceError, or another documented error if the call is also wrong otherwise); in-place update()/transform() on frozen receivers are left to C07",
 ]
 
